@@ -20,7 +20,7 @@ import (
 	"verif/internal/xgen"
 )
 
-const safeBudget = 1 << 21
+const safeBudget = 1 << 23
 
 // parseObs is one observation of grammar.Parse.
 type parseObs struct {
